@@ -58,8 +58,8 @@ def run(ctx, chk):
             pre0 = "#Sotdma.0." if scheme_got == "sotdma" else "#Itdma.0."
             sync = core_of(rs.get(pre0 + "sync_state", ("missing",)))
             if sync[0] == "bits" and sync[1] != B:
-                mism.append("state-base=%d(want %d)" % (sync[1], B))
-                BB = sync[1]
+                mism.append("state-base=%s(want %d)" % (sync[1], B))
+                BB = sync[1] if isinstance(sync[1], int) else B
             if scheme_got == "sotdma":
                 pre = "#Sotdma.0."
                 for f, (off, w) in (("sync_state", itu.SOTDMA["sync_state"]), ("slot_timeout", itu.SOTDMA["slot_timeout"])):
